@@ -29,6 +29,7 @@ type vAgent struct {
 	pwOf     map[string]string // harness bookkeeping: current password per user
 	pwHist   map[string][]string
 	pwMu     sync.Mutex
+	cand     map[string][]string // per user: passwords that were ever submitted for that user (latest last)
 }
 
 const vCheapCfg = `basedir: %q
@@ -87,10 +88,19 @@ func (a *vAgent) users() []vUser {
 	var out []vUser
 	for name, e := range lf {
 		u := vUser{name: name, admin: e.IsAdmin, pw: "?"}
-		for p := range a.pws {
-			if ok, _, _, _, _ := a.ref.Authenticate(name, p); ok {
-				u.pw = p
-				break
+		// the passwords submitted for this very user first (latest first), then everything known
+		cl := a.cand[name]
+		for i := len(cl) - 1; i >= 0 && u.pw == "?"; i-- {
+			if ok, _, _, _, _ := a.ref.Authenticate(name, cl[i]); ok {
+				u.pw = cl[i]
+			}
+		}
+		if u.pw == "?" {
+			for p := range a.pws {
+				if ok, _, _, _, _ := a.ref.Authenticate(name, p); ok {
+					u.pw = p
+					break
+				}
 			}
 		}
 		out = append(out, u)
